@@ -27,6 +27,7 @@ fn main() {
 		monitor::install_panic_hook();
 		std::process::exit(check::c03::child(&args[2..]));
 	}
+	let _ = monitor::CURRENT_ID.set(id.clone());
 	let mut cfg = Config {
 		tier: Tier::Quick,
 		seed: std::env::var("VERIF_SEED").ok().and_then(|s| s.parse().ok()).unwrap_or(20260927),
